@@ -213,6 +213,7 @@ func (r *Run) execInstr(fr *Frame, st *State, reach Term, ins ssa.Instruction, o
 		if !out.cond.IsTrue() && !out.cond.IsFalse() {
 			r.conds = append(r.conds, out.cond)
 			r.condMark = append(r.condMark, r.ctx.Mark())
+			r.condPos = append(r.condPos, r.posString(ins.Cond.Pos())+" "+trunc(ins.Cond.String(), 40))
 		}
 		return reach, false
 	case *ssa.Return:
